@@ -552,17 +552,26 @@ def check_calculate_all(ctx: Ctx):
     ctx.decide("R08.7", f, f.node, f"{f.qual}:handler", "exceptions of derived metrics (e.g. TypeError from a None edge-case value) are caught so evaluation completes", True if ok else (False if detail else None), {"caught": detail})
 
 
+def _run_rule(ctx, name, fn):
+    """a sub-rule that cannot be evaluated is recorded as undecided; the remaining rules still run"""
+    try:
+        return fn(ctx)
+    except (Undecided, AnchorMissing) as e:
+        ctx.undecided(name, None, None, f"{name}:analysis", f"{type(e).__name__}: {e}")
+        return 0
+
+
 def check(ctx: Ctx):
     # "instances on both sides without a match": tp must really be 0 then (decision step, R02.1)
     from . import c02
 
-    c02.check_evaluate(ctx)
-    check_init_and_call(ctx)
-    check_dispatch(ctx)
-    check_result_constructor(ctx)
-    check_zero_helper(ctx)
-    check_pipeline_typestate(ctx)
-    check_calculate_all(ctx)
+    _run_rule(ctx, "check_evaluate", c02.check_evaluate)
+    _run_rule(ctx, "check_init_and_call", check_init_and_call)
+    _run_rule(ctx, "check_dispatch", check_dispatch)
+    _run_rule(ctx, "check_result_constructor", check_result_constructor)
+    _run_rule(ctx, "check_zero_helper", check_zero_helper)
+    _run_rule(ctx, "check_pipeline_typestate", check_pipeline_typestate)
+    _run_rule(ctx, "check_calculate_all", check_calculate_all)
     # "fp and fn are the instance counts": the final result receives the pair's own counts (R01.2)
     from . import c01, c03
 
@@ -570,7 +579,7 @@ def check(ctx: Ctx):
     # "no match -> tp = 0": relabelling must not move an unmatched prediction onto a reference label
     from . import c04
 
-    c04.check_chained_replacement(ctx)
+    _run_rule(ctx, "check_chained_replacement", c04.check_chained_replacement)
     c03._guarded(ctx, "R04.2", c04.check_relabel)
     # "the configured handler": handlers of different evaluators share no container (R15.7/R15.8)
     from . import c15
